@@ -26,6 +26,15 @@ class SqlInvalid(Exception):
 NULL = z3.Int("sql.NULL")
 
 
+def _is_blank(e):
+    """A boolean clause list that renders as nothing: no clauses, or only blank ones."""
+    from sqlalchemy.sql import elements
+
+    while isinstance(e, elements.Grouping):
+        e = e.element
+    return isinstance(e, elements.BooleanClauseList) and all(_is_blank(c) for c in e.clauses)
+
+
 def _val(x):
     if isinstance(x, SymInt):
         return x.t
@@ -102,7 +111,11 @@ def expr(e, sc):
             raise SqlInvalid(f"no such column: {getattr(e.table, 'name', e.table)}.{e.name}")
         return sc.m[key]
     if isinstance(e, elements.BooleanClauseList):
-        parts = [as_bool(expr(c, sc)) for c in e.clauses]
+        # SQLAlchemy renders a clause list without clauses as nothing, and drops such blanks from an enclosing AND / OR (a
+        # blank that is the whole WHERE term means "no condition")
+        parts = [as_bool(expr(c, sc)) for c in e.clauses if not _is_blank(c)]
+        if not parts:
+            return z3.BoolVal(True)
         if e.operator is operators.and_:
             return zand(parts)
         if e.operator is operators.or_:
@@ -121,6 +134,8 @@ def expr(e, sc):
         if e.operator is operators.neg:
             return -as_int(expr(e.element, sc))
         if e.operator is operators.inv:
+            if _is_blank(e.element):
+                raise SqlInvalid("NOT applied to an empty clause list renders as 'NOT ' (not executable)")
             return z3.Not(as_bool(expr(e.element, sc)))
         if e.operator is operators.is_true:
             return as_bool(expr(e.element, sc))
